@@ -8,5 +8,5 @@ git -C /repo worktree add --detach "$WT" HEAD -q || exit 3
 git -C "$WT" apply "$P" || { echo "patch does not apply"; git -C /repo worktree remove --force "$WT"; exit 3; }
 cd /verif && VERIF_REPO="$WT" ./check "$ID" --tier "$TIER" > /tmp/seedtest_$$.log 2>&1; RC=$?
 git -C /repo worktree remove --force "$WT"
-grep -E "^VIOLATION|^  key=|KNOWN-FINDING|MACHINERY|seed=" /tmp/seedtest_$$.log | head -${LINES_MAX:-12}
+grep -E "^VIOLATION|^  key=|MACHINERY|seed=" /tmp/seedtest_$$.log | head -${LINES_MAX:-12}
 echo "rc=$RC"; rm -f /tmp/seedtest_$$.log
